@@ -1117,6 +1117,25 @@ func (t *fnTr) call(x *ast.CallExpr) string {
 			}
 		}
 	}
+	if se, ok := x.Fun.(*ast.SelectorExpr); ok && len(x.Args) == 2 && se.Sel.Name == "ReplaceAll" {
+		// r.ReplaceAll(src, repl) on a regexp local: the environment function ext_regexp_ReplaceAll applied to the pattern's
+		// source text (package regexp is not modelled; the pattern is visible in the translated term)
+		if id, ok := unparen(se.X).(*ast.Ident); ok {
+			if rl := t.locals[t.p.info.Uses[id]]; rl != nil && rl.kind == "regexp" {
+				if t.kindOfExpr(x.Args[0]) != "str" || t.kindOfExpr(x.Args[1]) != "str" {
+					t.unsupported(x, "regexp ReplaceAll on something other than byte slices")
+				}
+				found := false
+				for _, e := range *t.externs {
+					found = found || e.name == "ext_regexp_ReplaceAll"
+				}
+				if !found {
+					*t.externs = append(*t.externs, extern{"ext_regexp_ReplaceAll", "str -> str -> str -> str"})
+				}
+				return "(ext_regexp_ReplaceAll " + rl.fields["pat"].name + " " + t.expr(x.Args[0]) + " " + t.expr(x.Args[1]) + ")"
+			}
+		}
+	}
 	if se, ok := x.Fun.(*ast.SelectorExpr); ok && len(x.Args) == 0 && (se.Sel.Name == "Bytes" || se.Sel.Name == "String") {
 		if wl := t.lvarOf(se.X); wl != nil && wl.kind == "writer" {
 			return wl.name // the bytes written so far
@@ -1494,6 +1513,9 @@ func (t *fnTr) externCall(x *ast.CallExpr) (*extCall, bool) {
 			args = append(args, lv.name)
 		case k == "val":
 			args = append(args, t.boxVal(a))
+		case t.p.info.Types[a].IsNil() && k == "xattrs":
+			// nil handed to a []xml.Attr parameter: the empty slice
+			args = append(args, fnZero(k))
 		default:
 			args = append(args, t.expr(a))
 		}
@@ -2576,6 +2598,101 @@ func (t *fnTr) lvarOf(e ast.Expr) *lvar {
 	return nil
 }
 
+// decoderConfigIdiom: see the comment at its call in stmts.
+func (t *fnTr) decoderConfigIdiom(list []ast.Stmt, end func() string) (string, bool) {
+	if len(list) < 2 {
+		return "", false
+	}
+	as, ok := list[0].(*ast.AssignStmt)
+	if !ok || as.Tok != token.DEFINE || len(as.Lhs) != 1 || len(as.Rhs) != 1 {
+		return "", false
+	}
+	pid, ok := as.Lhs[0].(*ast.Ident)
+	if !ok {
+		return "", false
+	}
+	c, ok := as.Rhs[0].(*ast.CallExpr)
+	if !ok || len(c.Args) != 1 {
+		return "", false
+	}
+	if pk, nm, isPkg := t.pkgCall(c); !isPkg || pk != "encoding/xml" || nm != "NewDecoder" {
+		return "", false
+	}
+	bl := t.lvarOf(c.Args[0])
+	if bl == nil || bl.kind != "breader" {
+		return "", false
+	}
+	ifs, ok := list[1].(*ast.IfStmt)
+	if !ok || ifs.Init != nil || ifs.Else == nil {
+		return "", false
+	}
+	obj := t.p.info.Defs[pid]
+	isP := func(e ast.Expr) bool {
+		id, ok := unparen(e).(*ast.Ident)
+		return ok && t.p.info.Uses[id] == obj
+	}
+	isGlobal := func(e ast.Expr, name string) bool {
+		id, ok := unparen(e).(*ast.Ident)
+		if !ok || id.Name != name {
+			return false
+		}
+		o := t.p.info.Uses[id]
+		return o != nil && o.Parent() == t.p.pkg.Scope()
+	}
+	// condition: CustomDecoder != nil
+	be, ok := unparen(ifs.Cond).(*ast.BinaryExpr)
+	if !ok || be.Op != token.NEQ || !isGlobal(be.X, "CustomDecoder") {
+		return "", false
+	}
+	if nid, ok := unparen(be.Y).(*ast.Ident); !ok || nid.Name != "nil" {
+		return "", false
+	}
+	// then: useCustomDecoder(p)
+	if len(ifs.Body.List) != 1 {
+		return "", false
+	}
+	es, ok := ifs.Body.List[0].(*ast.ExprStmt)
+	if !ok {
+		return "", false
+	}
+	uc, ok := es.X.(*ast.CallExpr)
+	if !ok || len(uc.Args) != 1 || !isP(uc.Args[0]) || !isGlobal(uc.Fun, "useCustomDecoder") {
+		return "", false
+	}
+	// else: p.CharsetReader = XmlCharsetReader
+	eb, ok := ifs.Else.(*ast.BlockStmt)
+	if !ok || len(eb.List) != 1 {
+		return "", false
+	}
+	ea, ok := eb.List[0].(*ast.AssignStmt)
+	if !ok || ea.Tok != token.ASSIGN || len(ea.Lhs) != 1 || len(ea.Rhs) != 1 || !isGlobal(ea.Rhs[0], "XmlCharsetReader") {
+		return "", false
+	}
+	se, ok := ea.Lhs[0].(*ast.SelectorExpr)
+	if !ok || se.Sel.Name != "CharsetReader" || !isP(se.X) {
+		return "", false
+	}
+	// after the idiom p may only be handed to a package function (the parser)
+	reg := func(name, typ string) {
+		for _, e := range *t.externs {
+			if e.name == name {
+				return
+			}
+		}
+		*t.externs = append(*t.externs, extern{name, typ})
+	}
+	reg("ext_xml_NewDecoder", "str -> xdecoder")
+	reg("ext_useCustomDecoder", "(option nat) -> xdecoder -> xdecoder")
+	reg("ext_xml_set_CharsetReader", "xdecoder -> (option nat) -> xdecoder")
+	lv := t.newLocal(obj, pid.Name, "xdecoder")
+	src := bl.fields["src"].name
+	out := "let " + lv.name + " : xdecoder := (ext_xml_NewDecoder " + src + ") in\n  " +
+		"let " + lv.name + " : xdecoder := (if (negb (match (g_CustomDecoder st) with None => true | Some _ => false end))\n" +
+		"    then (ext_useCustomDecoder (g_CustomDecoder st) " + lv.name + ")\n" +
+		"    else (ext_xml_set_CharsetReader " + lv.name + " (g_XmlCharsetReader st))) in\n  "
+	return out + t.stmts(list[2:], end), true
+}
+
 // isZeroExpr: nil, "", 0 or false written literally - the zero value returned beside an error.
 func (t *fnTr) isZeroExpr(e ast.Expr) bool {
 	tv := t.p.info.Types[e]
@@ -2825,6 +2942,16 @@ func (t *fnTr) stmts(list []ast.Stmt, end func() string) string {
 	s, rest := list[0], list[1:]
 	next := func() string { return t.stmts(rest, end) }
 	t.curRest = rest
+	// the decoder-configuration idiom of xmlToMap / xmlSeqToMap:
+	//     p := xml.NewDecoder(b)                   (b := bytes.NewReader(doc))
+	//     if CustomDecoder != nil { useCustomDecoder(p) } else { p.CharsetReader = XmlCharsetReader }
+	// p is the token stream of the bytes under the configured decoder: ext_xml_NewDecoder gives the stream of a fresh
+	// decoder, ext_useCustomDecoder / ext_xml_set_CharsetReader what the stream becomes when the public attributes of
+	// CustomDecoder / the package's XmlCharsetReader are installed before the first Token call (environment functions:
+	// encoding/xml's tokenizer).  The two statements are translated one after the other; only this exact shape is accepted.
+	if out, ok := t.decoderConfigIdiom(list, end); ok {
+		return out
+	}
 	switch x := s.(type) {
 	case *ast.BlockStmt:
 		return t.stmts(append(append([]ast.Stmt{}, x.List...), rest...), end)
@@ -3771,6 +3898,23 @@ func (t *fnTr) assign(x *ast.AssignStmt, next func() string) string {
 							return t.wrap(mark, "let "+fs.name+" : str := "+src+" in let "+fu.name+" : bool := false in\n  "+next())
 						}
 					}
+				}
+			}
+		}
+		// r := regexp.MustCompile(<string constant>): the compiled pattern is its source text; its only use is r.ReplaceAll
+		if define {
+			if c, ok := x.Rhs[0].(*ast.CallExpr); ok && len(c.Args) == 1 {
+				if pk, nm, isPkg := t.pkgCall(c); isPkg && pk == "regexp" && nm == "MustCompile" {
+					tv := t.p.info.Types[c.Args[0]]
+					if tv.Value == nil || tv.Value.Kind() != constant.String {
+						t.unsupported(x, "regexp.MustCompile of something other than a string constant")
+					}
+					lv := &lvar{name: "l_" + l.Name, kind: "regexp", fields: map[string]*lvar{}}
+					t.locals[obj] = lv
+					fs := t.newLocal(nil, l.Name+"_pat", "str")
+					lv.fields["pat"] = fs
+					lv.forder = []string{"pat"}
+					return "let " + fs.name + " : str := " + gstr(constant.StringVal(tv.Value)) + " in\n  " + next()
 				}
 			}
 		}
@@ -5459,7 +5603,7 @@ func constTable(p *pkgInfo, vs *ast.ValueSpec, i int) (string, bool) {
 
 // the functions translated into Pure_gen.v ("Recv.Method" for methods)
 var pureFuncs = []string{"cast", "escapeChars", "parsePath", "getSubKeyMap", "hasSubKeys", "Map.PathForKeyShortest", "valuesForKeyPath", "hasKey", "hasKeyPath", "getLeafNodes",
-	"Map.ValuesForKey", "Map.oldValuesForPath", "Map.ValuesForPath", "Map.LeafNodes", "getJson", "NewMapJsonReader", "NewMapJsonReaderRaw", "Map.Exists", "Map.ValueForPath", "Map.ValueForKey", "Map.LeafPaths", "Map.LeafValues", "valuesForArray", "Map.PathsForKey", "byteReader.ReadByte", "teeReader.ReadByte", "Maps.JsonString", "Maps.JsonStringIndent", "Maps.XmlString", "Maps.XmlStringIndent", "BeautifyXml", "Map.Copy", "Map.Json", "Map.Root", "NewMapXml", "NewMapXmlSeq", "lastKey", "xmlToMapParser", "xmlSeqToMapParser", "Map.JsonWriter", "Map.JsonWriterRaw", "Map.JsonIndentWriter", "Map.JsonIndentWriterRaw", "Map.XmlWriter", "Map.XmlIndentWriter", "MapSeq.XmlWriter", "MapSeq.XmlIndentWriter", "mapToXmlSeqIndent", "pretty.Indent", "pretty.Outdent", "elemListSeq.Less", "marshalMapToXmlIndent", "attrList.Less", "elemList.Less", "NewMapJson", "updateValueForKey", "updateValue", "updateValuesForKeyPath", "Map.UpdateValuesForPath", "prevValueByPath", "remove", "renameKey", "Map.Remove", "Map.RenameKey", "parentPath", "Map.SetValueForPath", "Map.Xml", "Map.XmlIndent", "MapSeq.Xml", "MapSeq.XmlIndent", "AnyXml", "AnyXmlIndent", "marshalJSON", "Map.JsonIndent", "Map.NewMap", "addNewVal", "copyMapShallow", "NewMapGob", "Map.Gob", "HandleXmlReader", "HandleXmlReaderRaw", "HandleJsonReader", "HandleJsonReaderRaw", "NewMapsFromJsonFile", "NewMapsFromXmlFile", "NewMapsFromJsonFileRaw", "NewMapsFromXmlFileRaw", "Maps.JsonFile", "Maps.JsonFileIndent", "Maps.XmlFile", "Maps.XmlFileIndent"}
+	"Map.ValuesForKey", "Map.oldValuesForPath", "Map.ValuesForPath", "Map.LeafNodes", "getJson", "NewMapJsonReader", "NewMapJsonReaderRaw", "Map.Exists", "Map.ValueForPath", "Map.ValueForKey", "Map.LeafPaths", "Map.LeafValues", "valuesForArray", "Map.PathsForKey", "byteReader.ReadByte", "teeReader.ReadByte", "Maps.JsonString", "Maps.JsonStringIndent", "Maps.XmlString", "Maps.XmlStringIndent", "BeautifyXml", "Map.Copy", "Map.Json", "Map.Root", "NewMapXml", "NewMapXmlSeq", "lastKey", "xmlToMapParser", "xmlSeqToMapParser", "Map.JsonWriter", "Map.JsonWriterRaw", "Map.JsonIndentWriter", "Map.JsonIndentWriterRaw", "Map.XmlWriter", "Map.XmlIndentWriter", "MapSeq.XmlWriter", "MapSeq.XmlIndentWriter", "mapToXmlSeqIndent", "pretty.Indent", "pretty.Outdent", "elemListSeq.Less", "marshalMapToXmlIndent", "attrList.Less", "elemList.Less", "NewMapJson", "updateValueForKey", "updateValue", "updateValuesForKeyPath", "Map.UpdateValuesForPath", "prevValueByPath", "remove", "renameKey", "Map.Remove", "Map.RenameKey", "parentPath", "Map.SetValueForPath", "Map.Xml", "Map.XmlIndent", "MapSeq.Xml", "MapSeq.XmlIndent", "AnyXml", "AnyXmlIndent", "marshalJSON", "Map.JsonIndent", "Map.NewMap", "addNewVal", "copyMapShallow", "NewMapGob", "Map.Gob", "HandleXmlReader", "HandleXmlReaderRaw", "HandleJsonReader", "HandleJsonReaderRaw", "NewMapsFromJsonFile", "NewMapsFromXmlFile", "NewMapsFromJsonFileRaw", "NewMapsFromXmlFileRaw", "Maps.JsonFile", "Maps.JsonFileIndent", "Maps.XmlFile", "Maps.XmlFileIndent", "Map.ValueForPathString", "Map.ValueOrEmptyForPathString", "xmlToMap", "xmlSeqToMap", "NewMapFormattedXmlSeq"}
 
 // joinMode: functions translated in join mode (see branching): the statements after an if / switch are translated
 // once instead of into every branch.  The continuation-passing translation of the other functions is kept as it is
